@@ -37,8 +37,9 @@ def _r(text, note, ref):
     return {"text": text, "design_ref": "DESIGN.md §7 " + ref, "note": GENERIC_NOTE + note, "technique": TECH_R}
 
 
-TECH_R = ("machine-checked proof in Coq of specification, witness checker and reference decider/optimiser (all sizes) + "
-          "implementation compared with the extracted reference on bounded inputs and its witnesses checked at every size")
+TECH_R = ("machine-checked proof in Coq of specification, witness checker, reference decider/optimiser and of a statement-by-statement "
+          "mirror of the implementation's algorithm (sound and complete, all sizes) + differential execution: the implementation is compared "
+          "with the extracted mirror at every size, with the extracted reference on bounded inputs, and its witnesses go through the proved checker")
 
 CLAIMED.update({
     "C01": _m("Coq theorems (every well-formed instance, any size, Closed under the global context) about a mirror model of "
